@@ -49,6 +49,7 @@ type c03Node struct {
 	hasCatch   bool
 	hasFinally bool
 	catchVar   bool
+	inline     bool // kCall: the callee's body is written out as a function literal at the call site
 }
 
 type c03Gen struct {
@@ -125,7 +126,7 @@ func (g *c03Gen) stmts(n int, role string, depth int, inLoop bool, fn int) []*c0
 			out = append(out, &c03Node{kind: kThrow, k: g.t.Draw(50)})
 			return out
 		case kCall:
-			out = append(out, &c03Node{kind: kCall, k: fn + 1 + g.t.Draw(g.nFuncs-fn-1)})
+			out = append(out, &c03Node{kind: kCall, k: fn + 1 + g.t.Draw(g.nFuncs-fn-1), inline: g.t.Bool(1, 3)})
 		case kTry:
 			out = append(out, g.try(depth, inLoop, fn))
 		case kRtErr:
@@ -206,6 +207,8 @@ type c03Render struct {
 	sb   strings.Builder
 	loop int
 	ev   int
+	lits int
+	fns  [][]*c03Node
 }
 
 func (r *c03Render) block(ns []*c03Node, lvl int) {
@@ -250,6 +253,16 @@ func (r *c03Render) node(n *c03Node, lvl int) {
 	case kThrow:
 		fmt.Fprintf(&r.sb, "%sthrow \"t%d\"\n", in, n.k)
 	case kCall:
+		if n.inline && r.fns != nil {
+			// the same function, written as a literal where it is called (inside whatever try, catch, finally or loop
+			// body that is): same statements, same activation counter
+			r.lits++
+			name := fmt.Sprintf("lf%d", r.lits)
+			fmt.Fprintf(&r.sb, "%s%s := func() {\n%s\td%d++\n", in, name, in, n.k)
+			r.block(r.fns[n.k], lvl+1)
+			fmt.Fprintf(&r.sb, "%s}\n%slog(\"r\", %s())\n", in, in, name)
+			break
+		}
 		fmt.Fprintf(&r.sb, "%slog(\"r\", f%d())\n", in, n.k)
 	case kRtErr:
 		fmt.Fprintf(&r.sb, "%slog([][%d])\n", in, n.k)
@@ -284,8 +297,8 @@ func (r *c03Render) node(n *c03Node, lvl int) {
 	}
 }
 
-func c03Script(fns [][]*c03Node, filler int) string {
-	r := &c03Render{}
+func c03Script(fns [][]*c03Node, filler, deep int) string {
+	r := &c03Render{fns: fns}
 	r.sb.WriteString(sim.Prelude)
 	// later functions are defined first so that earlier ones can call them
 	for i := len(fns) - 1; i >= 0; i-- {
@@ -300,6 +313,12 @@ func c03Script(fns [][]*c03Node, filler int) string {
 		}
 		r.block(fns[i], 1)
 		r.sb.WriteString("}\n")
+	}
+	if deep > 0 {
+		// the whole nest runs `deep` frames below the main function (no tail call: every level keeps its frame)
+		// (no parameter, no local: one value-stack slot per level, so that the frames run out before the value stack)
+		fmt.Fprintf(&r.sb, "zn := %d\nzres := undefined\nvar zdeep\nzdeep = func() {\n\tzn--\n\tif zn <= 0 {\n\t\tzres = f0()\n\t\treturn\n\t}\n\tzdeep()\n}\nzdeep()\nreturn zres\n", deep)
+		return r.sb.String()
 	}
 	r.sb.WriteString("return f0()\n")
 	return r.sb.String()
@@ -497,7 +516,13 @@ func c03Run(rc *sim.RunCtx) {
 		filler = 8200 + t.Draw(400)
 		rc.Probe("try-statements-beyond-64KiB")
 	}
-	src := c03Script(fns, filler)
+	deep := 0
+	if t.Bool(1, 40) {
+		// near the frame limit: handlers must work in the last frames the VM can use
+		deep = 1000 + t.Draw(23)
+		rc.Probe("nest-near-the-frame-limit")
+	}
+	src := c03Script(fns, filler, deep)
 
 	// reference model
 	m := &c03Model{spec: ws, occ: map[int]int{}, chooseN: map[int]int{}, fns: fns, caught: map[int]c03Compl{}, depth: map[int]int{}}
@@ -543,6 +568,11 @@ func c03Run(rc *sim.RunCtx) {
 	}()
 	rc.Steps = steps
 	got := sim.MakeOutcome(ret, rerr, w.Hist)
+	if deep > 0 && strings.Contains(got.Value, "StackOverflow") {
+		// the nest's own calls went past the frame limit: not what the model describes
+		rc.Discard = "frame-limit-reached"
+		return
+	}
 
 	// probes and non-triviality
 	tries, abruptLeft := 0, false
